@@ -53,6 +53,8 @@ static const char *err_name(int code)
   case JERR_BAD_PROGRESSION: return "BadProgression";
   case JERR_BAD_RESTART: return strncmp(last_msg, "Invalid restart interval", 24) ? "BadRestartWrongText" : "BadRestart";
   case JERR_BAD_STATE: return "BadState";
+  case JERR_BAD_J_COLORSPACE: return "BadJColorspace";
+  case JERR_BAD_IN_COLORSPACE: return "BadInColorspace";
   case JERR_BAD_LENGTH: return "BadLength";
   case JERR_OUT_OF_MEMORY: return "OutOfMemory";
   default: snprintf(buf, sizeof(buf), "Other%d", code); return buf;
@@ -782,6 +784,48 @@ static void do_wm(char *p)
   print_oracle(0, 16, 16, 1);
 }
 
+/* qs QUALITY FORCE LINEAR SCALE : jpeg_set_quality / jpeg_set_linear_quality: the two tables they install */
+static void do_qs(char *p)
+{
+  int quality = (int)nextl(&p), force = (int)nextl(&p), linear = (int)nextl(&p), scale = (int)nextl(&p), i, t;
+  static unsigned char rowb[16 * 3]; JSAMPROW rp = rowb;
+  prng = 3;
+  fresh_compress();
+  if (setjmp(jb)) { printf("err %s # -\n", err_name(last_err)); jpeg_destroy_compress(&cc); return; }
+  set_dest(&cc, 4096);
+  cc.image_width = 16; cc.image_height = 8; cc.input_components = 3; cc.in_color_space = JCS_RGB;
+  jpeg_set_defaults(&cc);
+  if (linear) jpeg_set_linear_quality(&cc, scale, force); else jpeg_set_quality(&cc, quality, force);
+  printf("ok");
+  for (t = 0; t < 2; t++) { printf(" t%d=", t); for (i = 0; i < 64; i++) printf("%s%u", i ? "," : "", cc.quant_tbl_ptrs[t]->quantval[i]); }
+  jpeg_start_compress(&cc, TRUE);
+  while (cc.next_scanline < cc.image_height) { for (i = 0; i < 48; i++) rowb[i] = rnd() & 0xFF; jpeg_write_scanlines(&cc, &rp, 1); }
+  jpeg_finish_compress(&cc);
+  jpeg_destroy_compress(&cc);
+  print_oracle(0, 16, 8, 3);
+}
+
+/* cs MODE CS INCOMP LOSSLESS : MODE 0 jpeg_set_colorspace(CS), 1 jpeg_default_colorspace with in_color_space = CS */
+static void do_cs(char *p)
+{
+  int mode = (int)nextl(&p), cs = (int)nextl(&p), incomp = (int)nextl(&p), lossless = (int)nextl(&p), i;
+  fresh_compress();
+  if (setjmp(jb)) { printf("err %s # -\n", err_name(last_err)); jpeg_destroy_compress(&cc); return; }
+  cc.image_width = 8; cc.image_height = 8; cc.input_components = 3; cc.in_color_space = JCS_RGB;
+  jpeg_set_defaults(&cc);
+  if (lossless) jpeg_enable_lossless(&cc, 1, 0);
+  cc.input_components = incomp;
+  if (mode == 0) jpeg_set_colorspace(&cc, (J_COLOR_SPACE)cs);
+  else { cc.in_color_space = (J_COLOR_SPACE)cs; jpeg_default_colorspace(&cc); }
+  printf("ok cs=%d nc=%d jfif=%d adobe=%d |", (int)cc.jpeg_color_space, cc.num_components, cc.write_JFIF_header, cc.write_Adobe_marker);
+  for (i = 0; i < cc.num_components; i++) {
+    jpeg_component_info *c = &cc.comp_info[i];
+    printf(" %d,%d,%d,%d,%d,%d", c->component_id, c->h_samp_factor, c->v_samp_factor, c->quant_tbl_no, c->dc_tbl_no, c->ac_tbl_no);
+  }
+  printf(" # -\n");
+  jpeg_destroy_compress(&cc);
+}
+
 /* ------------------------------------------------------------------ quant tables */
 static void do_qt(char *p)
 {
@@ -847,7 +891,7 @@ static void do_tjc(char *p)
   else if (prec <= 12) r = tj3Compress12(h, img, W, 0, H, pf, &jpg, &jsz);
   else r = tj3Compress16(h, img, W, 0, H, pf, &jpg, &jsz);
   free(img);
-  if (r != 0) { printf("any # tjerr rej=%d\n", nrej); }
+  if (r != 0) { printf("rej # tjerr rej=%d\n", nrej); }
   else {
     char ob[256];
     oracle(jpg, jsz, 0, ob, sizeof(ob));
@@ -870,6 +914,8 @@ int main(void)
     else if (!strcmp(cmd, "hdr")) do_setup_variant(p, 3);
     else if (!strcmp(cmd, "tn")) do_tn(p);
     else if (!strcmp(cmd, "wt")) do_wt(p);
+    else if (!strcmp(cmd, "qs")) do_qs(p);
+    else if (!strcmp(cmd, "cs")) do_cs(p);
     else if (!strcmp(cmd, "wm")) do_wm(p);
     else if (!strcmp(cmd, "blk")) do_blk(p);
     else if (!strcmp(cmd, "coef")) do_coef(p);
